@@ -242,6 +242,8 @@ def check(prog, rep):
     rep.trusted += ["sympy expand / groebner (used as a polynomial normaliser)"]
     rep.guarded(rule_arguments_not_modified, prog, rep)  # first: stands even if the algebra below cannot be read off the code
     rep.guarded(rule_torsions_can_be_set, prog, rep)
+    rep.guarded(rule_tetrahedral_move_set, prog, rep, "R9")
+    rep.guarded(rule_stored_torsions_are_current, prog, rep, "R10")
     rep.not_decided += ["convergence of the Jacobi sweeps beyond the model fits of R6 (eight rigid motions of one template triple, two of "
                         "them chosen because they need five sweeps)", "degenerate (collinear) inputs", "the rounding of RADIANS_TO_DEGREES"]
     q = prog.module("quatfit.py")
@@ -709,3 +711,112 @@ def rule_torsions_can_be_set(prog, rep):
                     loose.append(f"{name}: {dih} ({x}-{y} is not a bond)")
     r.add("torsion-atoms-bonded-in-a-row", not loose and n_dih > 300, f"{n_dih} tabulated torsions (residues and patched forms): consecutive atoms are bonded"
           + (f" - NOT so: {loose[:4]}" if loose else ""), "pdb2pqr/dat/AA.xml, NA.xml, PATCHES.xml")
+
+
+def rule_tetrahedral_move_set(prog, rep, rid="R9"):
+    """Residue.rotate_tetrahedral(atom1, atom2, angle) is evaluated on model centres (the rotation itself stays uninterpreted: R2 decides the
+    matrix): the atoms that receive the rotated coordinates must be exactly the atoms bonded to atom2 other than atom1 - terminal atoms and
+    atoms that carry substituents of their own alike - each receiving the image of its own position, and nothing else may move."""
+    from ..guards import Flow, Obj
+    from ..objinterp import ObjRunner
+    r = rep.rule(rid, "rotate_tetrahedral turns every atom bonded to the far atom of the axis, and only those", floor=3)
+    fn = prog.func("residue.py", "Residue.rotate_tetrahedral")
+    where = f"pdb2pqr/residue.py:{fn.node.lineno} (Residue.rotate_tetrahedral)"
+    # name -> bonded names; axis atom1 -> atom2
+    models = {
+        "methyl on a chain (three terminal hydrogens)": ({"CA": ["CB", "N"], "CB": ["CA", "HB1", "HB2", "HB3"], "HB1": ["CB"], "HB2": ["CB"], "HB3": ["CB"], "N": ["CA"]}, ("CA", "CB")),
+        "methylene in a chain (two hydrogens and a substituted carbon)": ({"CB": ["CA", "CG"], "CG": ["CB", "HG2", "HG3", "CD"], "HG2": ["CG"], "HG3": ["CG"],
+                                                                          "CD": ["CG", "OE1", "OE2"], "OE1": ["CD"], "OE2": ["CD"], "CA": ["CB"]}, ("CB", "CG")),
+        "hydroxyl (one hydrogen, listed after a lone pair)": ({"CB": ["OG", "CA"], "OG": ["LP1", "CB", "HG"], "HG": ["OG"], "LP1": ["OG"], "CA": ["CB"]}, ("CB", "OG")),
+        "far atom in a ring (both ring neighbours are substituted)": ({"CB": ["CG"], "CG": ["CD1", "CB", "CD2"], "CD1": ["CG", "CE1"], "CD2": ["CG", "CE2"], "CE1": ["CD1"], "CE2": ["CD2"]}, ("CB", "CG")),
+    }
+    for label, (graph, (n1, n2)) in models.items():
+        atoms = {}
+        for k, nm in enumerate(graph):
+            atoms[nm] = Obj({"__class__": "Atom", "name": nm, "x": 1.0 + k, "y": 0.5 * k, "z": -0.25 * k, "bonds": [],
+                             "__props__": {"coords": lambda a_: [a_["x"], a_["y"], a_["z"]]}})
+        for nm, nbrs in graph.items():
+            atoms[nm]["bonds"] = [atoms[b] for b in nbrs]
+        before = {nm: (a["x"], a["y"], a["z"]) for nm, a in atoms.items()}
+        seen = {}
+
+        def extra(runner, interp, call, args, kw, seen=seen, atoms=atoms, n1=n1):
+            if U(call.func).endswith("qchichange") and len(args) == 3:
+                seen["axis"], seen["coords"], seen["angle"] = args[0], [list(c) for c in args[1]], args[2]
+                return [[10000.0 + 10 * i, 20000.0 + 10 * i, 30000.0 + 10 * i] for i in range(len(args[1]))]
+            return NotImplemented
+
+        res = Obj({"__class__": "Residue", "name": "XXX", "atoms": list(atoms.values()), "map": dict(atoms)})
+        run = ObjRunner(prog, "residue.py", extra_hook=extra)
+        try:
+            run.call(res, "rotate_tetrahedral", atoms[n1], atoms[n2], 37.5)
+        except Flow as fl:
+            r.bad(f"moves|{label}", f"rotate_tetrahedral stops with {fl.value}", where)
+            continue
+        if "coords" not in seen:
+            raise AnalysisError("rotate_tetrahedral: no call to qchichange on the model centre")
+        moved = {nm for nm, a in atoms.items() if (a["x"], a["y"], a["z"]) != before[nm]}
+        want = set(graph[n2]) - {n1}
+        problems = []
+        if moved != want:
+            problems.append(f"atoms that moved {sorted(moved)}, atoms bonded to {n2} other than {n1}: {sorted(want)}")
+        # each moved atom gets the image of its own position relative to atom1: the i-th rotated point goes to the atom whose offset was the i-th input
+        o = before[n1]
+        for nm in sorted(moved & want):
+            a = atoms[nm]
+            i = round((a["x"] - o[0] - 10000.0) / 10)
+            if not (0 <= i < len(seen["coords"])) or any(abs(seen["coords"][i][k] - (before[nm][k] - o[k])) > 1e-9 for k in range(3)) or \
+                    abs(a["y"] - o[1] - 20000.0 - 10 * i) > 1e-6 or abs(a["z"] - o[2] - 30000.0 - 10 * i) > 1e-6:
+                problems.append(f"{nm} received the image of another point (or not relative to {n1})")
+        ax = seen.get("axis")
+        if not ax or any(abs(ax[k] - (before[n2][k] - before[n1][k])) > 1e-9 for k in range(3)):
+            problems.append(f"the rotation axis handed to qchichange is {ax}, not {n2} - {n1}")
+        if seen.get("angle") != 37.5:
+            problems.append(f"the angle handed to qchichange is {seen.get('angle')}, requested 37.5")
+        r.add(f"moves|{label}", not problems, f"{label}: " + ("; ".join(problems) if problems else f"rotated {sorted(moved)} about {n1}-{n2}"), where)
+
+
+def rule_stored_torsions_are_current(prog, rep, rid="R10"):
+    """Debump.set_dihedral_angle rotates by (requested - stored), so a torsion is set right only if the stored value is the torsion the atoms
+    have now.  Biomolecule.calculate_dihedral_angles is evaluated twice on a model residue whose atoms move between the two calls (by anything:
+    a tetrahedral rotation, a flip, the caller): after the second call every stored value must be the measurement of the current positions."""
+    from ..guards import Flow, Obj
+    from ..objinterp import ObjRunner
+    r = rep.rule(rid, "the stored torsions are measured anew at every pass: a torsion is set relative to where the atoms are now", floor=2)
+    fn = prog.func("biomolecule.py", "Biomolecule.calculate_dihedral_angles")
+    where = f"pdb2pqr/biomolecule.py:{fn.node.lineno} (Biomolecule.calculate_dihedral_angles)"
+    names = ["N", "CA", "CB", "CG", "CD"]
+
+    def measure(pts):
+        return round(sum((i + 1) * (p[0] + 2 * p[1] + 3 * p[2]) for i, p in enumerate(pts)), 6)  # any injective stand-in for the torsion
+
+    def extra(runner, interp, call, args, kw):
+        if U(call.func).endswith("dihedral") and len(args) == 4 and not kw:
+            return measure(args)
+        return NotImplemented
+
+    for label, present in (("all atoms present", names), ("an atom missing at first, present later", names[:-1])):
+        atoms = {nm: Obj({"__class__": "Atom", "name": nm, "x": float(k), "y": 0.5 * k * k, "z": -1.0 * k, "bonds": [],
+                          "__props__": {"coords": lambda a_: [a_["x"], a_["y"], a_["z"]]}}) for k, nm in enumerate(names)}
+        ref = Obj({"__class__": "DefinitionResidue", "name": "XXX", "dihedrals": ["N CA CB CG", "CA CB CG CD"], "map": {}})
+        res = Obj({"__class__": "LYS", "name": "LYS", "atoms": [atoms[n] for n in present], "map": {n: atoms[n] for n in present}, "dihedrals": [],
+                   "reference": ref, "is_n_term": False, "is_c_term": False})
+        wat = Obj({"__class__": "WAT", "name": "HOH", "atoms": [], "map": {}, "dihedrals": [], "reference": None})
+        bio = Obj({"__class__": "Biomolecule", "residues": [wat, res], "chains": []})
+        run = ObjRunner(prog, "biomolecule.py", extra_hook=extra)
+        try:
+            run.call(bio, "calculate_dihedral_angles")
+            first = list(res["dihedrals"])
+            for k, nm in enumerate(names):  # the atoms move (not through set_dihedral_angle), the missing atom appears
+                atoms[nm]["x"] += 0.37 * (k + 1)
+                atoms[nm]["z"] -= 0.11 * k
+            res["atoms"] = [atoms[n] for n in names]
+            res["map"] = {n: atoms[n] for n in names}
+            run.call(bio, "calculate_dihedral_angles")
+        except Flow as fl:
+            r.bad(f"current|{label}", f"calculate_dihedral_angles stops with {fl.value}", where)
+            continue
+        want = [measure([[atoms[n]["x"], atoms[n]["y"], atoms[n]["z"]] for n in d.split()]) for d in ref["dihedrals"]]
+        got = list(res["dihedrals"])
+        r.add(f"current|{label}", got == want, f"{label}: stored after the first pass {first}; the atoms moved; stored after the second pass {got}, "
+              f"measured on the current positions {want}", where)
